@@ -243,7 +243,38 @@ class ConfigRun(object):
         tor.info['process/pid'] = lambda: '4242'
         tor.setconf_policy = self.setconf_policy
         tor.on_setconf_applied = self.on_setconf_applied
+        tor.verbs['ADD_ONION'] = self.cmd_add_onion
         self.reject_left = self.ch.draw(3, 'nreject')
+
+    ONION_SID = 'txsimc10onionsvc'
+    ONION_DIR = '$' + 'AB' * 20 + '~simdir'
+
+    def cmd_add_onion(self, rest):
+        """an ephemeral service made through the same TorConfig (C10 only cares that it changes nothing about save())"""
+        from ..ctlpeer import Reply
+        self.sim.log('ADD_ONION', rest[:60])
+        self.pending_onion_events = True
+        return Reply(250, [('mid', 'ServiceID=' + self.ONION_SID), ('mid', 'PrivateKey=RSA1024:' + 'QUJD' * 8)], 'OK')
+
+    def onion_events(self):
+        if getattr(self, 'pending_onion_events', False) and 'HS_DESC' in self.tor.subscribed and not self.tor.inbox:
+            return [(5, 'tor-uploads-descriptor', self.op_onion_upload)]
+        return []
+
+    def op_onion_upload(self):
+        self.pending_onion_events = False
+        self.tor.emit('HS_DESC', 'UPLOAD %s UNKNOWN %s desc0 HSDIR_INDEX=x' % (self.ONION_SID, self.ONION_DIR))
+        self.tor.emit('HS_DESC', 'UPLOADED %s UNKNOWN %s' % (self.ONION_SID, self.ONION_DIR))
+
+    def op_create_onion(self):
+        from txtorcon.onion import EphemeralOnionService
+        sim = self.sim
+        self.onion_left = 0
+        sim.probe('ephemeral-onion-service-created-through-the-same-view')
+        sim.log('create-onion')
+        self.onion_result = []
+        d = EphemeralOnionService.create(sim.reactor, self.cfg, ['80 127.0.0.1:8080'], version=2)
+        d.addCallbacks(lambda svc: self.onion_result.append(('ok', svc)), lambda f: self.onion_result.append(('err', f.type.__name__, f.getErrorMessage()[:120])))
 
     def setconf_policy(self, items):
         """called when a SETCONF arrives: wire oracle, then accept or reject (drawn)"""
@@ -332,6 +363,8 @@ class ConfigRun(object):
                 pass
         if self.changes_left > 0:
             acts.append((3 if self.prop == 'C11' else 1, 'second-controller', self.op_second_controller))
+        if self.onion_left > 0 and self.prop == 'C10':
+            acts.append((2, 'create-onion', self.op_create_onion))
         return acts
 
     def name_case(self, o):
@@ -739,6 +772,8 @@ class ConfigRun(object):
         self.conn = sim.net.attach(self.proto, self.tor)
         self.conn.seg_mode = ch.pick(['mixed', 'whole', 'mixed', 'whole', 'bytewise'], 'segmode')
         sim.add_source(self.tor_actions)
+        sim.add_source(self.onion_events)
+        self.onion_left = 1 if (self.prop == 'C10' and ch.chance(1, 6, 'withonion')) else 0
         if self.prop == 'C11' and ch.chance(1, 6, 'priorlistener'):
             # the connection has a history before the view is attached: the application listened for CONF_CHANGED
             # itself and Tor has already announced a change by another controller. The view built afterwards must
